@@ -400,7 +400,15 @@ impl<'a> Runner<'a> {
                 .map(|(k, s)| json!({"o": self.world.name_of(k), "amt": amt_json(s.amount), "spent": s.spent, "lc": s.lc, "bh": s.block_id}))
                 .collect();
             wsl.sort_by_key(|v| v["o"].as_str().unwrap().to_string());
-            json!({"tip": tip, "tiph": bc.get_latest_block_id(), "utxo": utxo, "pool": pool,
+            // the by-height longest-chain index as labels (heights 1..tip)
+            let mut lc: Vec<String> = vec![];
+            for hgt in 1..=bc.get_latest_block_id() {
+                lc.push(match bc.blockring.get_longest_chain_block_hash_at_block_id(hgt) {
+                    Some(hh) => self.by_hash.get(&hh).cloned().unwrap_or_else(|| "?".into()),
+                    None => "-".into(),
+                });
+            }
+            json!({"tip": tip, "tiph": bc.get_latest_block_id(), "lc": lc, "utxo": utxo, "pool": pool,
                    "reserved": reserved, "work": amt_json(mp.get_routing_work_available()),
                    "wallet": {"unspent": wun, "slips": wsl, "balance": amt_json(w.get_available_balance()),
                               "pending": w.pending_txs.len()}})
